@@ -3,6 +3,7 @@ package main
 import (
 	"fmt"
 	"go/token"
+	"go/types"
 	"sort"
 	"strings"
 
@@ -32,10 +33,32 @@ func normLit(s *Sym, truth bool) (*Sym, bool) {
 			s, truth = s.Args[0], !truth
 		case s.Op == "bin" && s.Name == "!=":
 			s, truth = &Sym{Op: "bin", Name: "==", Args: s.Args, V: s.V, Typ: s.Typ}, !truth
+		case s.Op == "bin" && !truth && (s.Name == "<" || s.Name == "<=") && isIntegerSym(s.Args[0]) && isIntegerSym(s.Args[1]):
+			// integers are totally ordered: NOT (a < b) == (b <= a), NOT (a <= b) == (b < a)
+			op := "<="
+			if s.Name == "<=" {
+				op = "<"
+			}
+			s, truth = &Sym{Op: "bin", Name: op, Args: []*Sym{s.Args[1], s.Args[0]}, V: s.V, Typ: s.Typ}, true
 		default:
 			return s, truth
 		}
 	}
+}
+
+// isIntegerSym: the expression has an integer type (so comparisons on it can be negated by swapping).
+func isIntegerSym(s *Sym) bool {
+	var t types.Type
+	if s.V != nil {
+		t = s.V.Type()
+	} else if s.Typ != nil {
+		t = s.Typ
+	}
+	if t == nil {
+		return false
+	}
+	b, ok := t.Underlying().(*types.Basic)
+	return ok && b.Info()&types.IsInteger != 0
 }
 
 func (m *Model) litOf(cond ssa.Value, truth bool, ifi *ssa.If) Lit {
